@@ -139,6 +139,7 @@ def spider(shape, width, angle=0, shift=(0,0), antialias=True):
     shape = np.broadcast_to(shape, (2,))
     len = np.sqrt(2) * np.max(shape)/2  # max length when angle is a multiple of 45 deg
     shift_dist = len / 2
+    angle = float(angle)
     shift_row = -shift_dist * np.sin(np.deg2rad(angle))
     shift_col = shift_dist * np.cos(np.deg2rad(angle))
     shift = (shift[0] + shift_row, shift[1] + shift_col)
